@@ -343,7 +343,7 @@ def known_findings(pid):
     return kf
 
 # ---------------------------------------------------------------- main check
-def run_check(pid, tier):
+def run_check(pid, tier, report_as=None):
     t0 = time.time()
     seed = int(os.environ.get("VERIF_SEED", "1") or "1")
     cfgp = os.path.join(V, "checks", pid + ".json")
@@ -461,7 +461,7 @@ def run_check(pid, tier):
         key = v.get("key", "")
         hit = [k for k in kf if k[0] == key]
         if hit:
-            log("KNOWN-FINDING: property=%s %s" % (pid, hit[0][1]))
+            log("KNOWN-FINDING: property=%s %s" % (report_as or pid, hit[0][1]))
         else:
             reported.append(v)
 
@@ -470,7 +470,7 @@ def run_check(pid, tier):
         with open(replay_path, "w") as f:
             json.dump({"property": pid, "tier": tier, "seed": seed, "kind": "failing-input",
                        "violations": reported[:20], "also_broken": broken}, f, indent=1)
-        log("VIOLATION property=%s replay=%s" % (pid, replay_path))
+        log("VIOLATION property=%s replay=%s" % (report_as or pid, replay_path))
         for v in reported[:5]:
             log("  " + str(v.get("what", ""))[:300])
         status = 1
@@ -482,7 +482,7 @@ def run_check(pid, tier):
                       f, indent=1)
         for b in broken[:5]:
             log("  no longer checks: [%s] %s" % (b["kind"], b["what"]))
-        log("VIOLATION property=%s replay=%s no-failing-input-found" % (pid, replay_path))
+        log("VIOLATION property=%s replay=%s no-failing-input-found" % (report_as or pid, replay_path))
         status = 1
 
     # evidence
@@ -562,7 +562,35 @@ def main():
     tier = a[1] if len(a) > 1 else os.environ.get("VERIF_TIER", "quick")
     if tier not in ("quick", "thorough"):
         tier = "quick"
-    return run_check(pid, tier)
+    status = run_check(pid, tier)
+    # sub-checks that belong to the same property (a deeper layer of the same model): they have
+    # their own props file / harness stream / evidence file and are reported under the property
+    with open(os.path.join(V, "checks", pid + ".json")) as f:
+        cfg = json.load(f)
+    subs = {}
+    for sub in cfg.get("also", []):
+        st = run_check(sub, tier, report_as=pid)
+        try:
+            with open(os.path.join(V, "evidence", sub + ".json")) as f:
+                se = json.load(f)
+            subs[sub] = {"status": "ok" if st == 0 else "violation", "property_theorems": se["coverage"].get("property_theorems"),
+                         "print_assumptions": se["coverage"].get("print_assumptions"), "obligations": se["coverage"].get("obligations"),
+                         "evaluations": se["coverage"].get("evaluations"), "correspondence": se["coverage"].get("correspondence"),
+                         "proved_layer": se["coverage"].get("proved_layer"), "wall_s": se.get("wall_s")}
+        except Exception as ex:
+            subs[sub] = {"status": "no evidence", "error": str(ex)}
+        status = status or st
+    if subs:
+        evp = os.path.join(V, "evidence", pid + ".json")
+        with open(evp) as f:
+            ev = json.load(f)
+        ev["coverage"]["sub_checks"] = subs
+        ev["wall_s"] = round(ev.get("wall_s", 0) + sum((v.get("wall_s") or 0) for v in subs.values()), 1)
+        if status and not ev.get("violations"):
+            ev["violations"] = 1
+        with open(evp, "w") as f:
+            json.dump(ev, f, indent=1)
+    return status
 
 if __name__ == "__main__":
     sys.exit(main())
